@@ -143,8 +143,9 @@ type vfQrRun struct {
 	passive  bool // confirmation mode: never touch the real state
 	viol     []vfQrViolation
 	l2       []vfQrViolation
-	retry    bool // an allowed but different non-deterministic choice was made: run the walk again
-	tie      bool // the step just executed had several allowed outcomes (Go map iteration order decides)
+	retry    bool           // an allowed but different non-deterministic choice was made: run the walk again
+	tie      bool           // the step just executed had several allowed outcomes (Go map iteration order decides)
+	tieSnap  map[int][3]int // candidate socket -> (pool class, count, unused age) before the call
 	devs     []string
 }
 
@@ -694,6 +695,49 @@ func (r *vfQrRun) disarm() {
 	r.n.failNext, r.n.badNext, r.selErr = nil, false, false
 }
 
+// snapshot records the internal state of the candidates of a non-deterministic choice before the call
+func (r *vfQrRun) snapshot(cands []int) {
+	r.tieSnap = map[int][3]int{}
+	for _, c := range cands {
+		r.tieSnap[c] = r.internal(c)
+	}
+}
+
+func (r *vfQrRun) internal(sock int) [3]int {
+	tr, pool := r.find(r.led[sock-1].s)
+	if tr == nil {
+		return [3]int{-1, 0, 0}
+	}
+	ref, age := r.age(tr)
+	return [3]int{int(pool[0]), ref, age}
+}
+
+// otherChoice: the call picked another of the eligible candidates than the model did (seen in the internal state, because a
+// failed call does not show which transport it touched). Anything else - nothing or several changed - is left to the comparison.
+func (r *vfQrRun) otherChoice(chosen int) bool {
+	var changed []int
+	for c, before := range r.tieSnap {
+		if r.internal(c) != before {
+			changed = append(changed, c)
+		}
+	}
+	if len(changed) == 1 {
+		return changed[0] != chosen
+	}
+	if len(changed) == 0 {
+		// a use that began and ended within the call is invisible on a transport that became unused at this very instant
+		invisible := func(c int) bool { b, ok := r.tieSnap[c]; return ok && b[1] == 0 && b[2] == 0 }
+		if !invisible(chosen) {
+			for c := range r.tieSnap {
+				if c != chosen && invisible(c) {
+					return true
+				}
+			}
+		}
+	}
+	return false
+}
+
 // exec runs one model action on the real objects and updates the ledger from the real results.
 func (r *vfQrRun) exec(op vfh.Op) {
 	name := op.Name()
@@ -704,13 +748,15 @@ func (r *vfQrRun) exec(op vfh.Op) {
 		nBefore := len(r.led)
 		if op.S("ip") == "any" {
 			// several dial transports that the listen may take over?
-			c := 0
-			for _, l := range r.led {
+			var cands []int
+			for i, l := range r.led {
 				if !l.listened && !l.s.isClosed() && l.s.laddr.IP.IsUnspecified() && (op.I("port") == 0 || l.s.laddr.Port == vfQrPort(op.I("port"))) {
-					c++
+					cands = append(cands, i+1)
 				}
 			}
-			r.tie = c > 1
+			if r.tie = len(cands) > 1; r.tie {
+				r.snapshot(cands)
+			}
 		}
 		r.arm(op.S("fault"))
 		conf := &tls.Config{Certificates: []tls.Certificate{r.cert}}
@@ -724,9 +770,11 @@ func (r *vfQrRun) exec(op vfh.Op) {
 		ln, err := r.cm.ListenQUICAndAssociate(assoc, r.maddr(op.S("ip"), op.I("port")), conf, nil)
 		r.disarm()
 		synctest.Wait()
-		if (err == nil) != op.B("ok") && r.tie {
+		if r.tie && r.otherChoice(op.I("sock")) {
 			r.retry = true
-		} else if (err == nil) != op.B("ok") {
+			return
+		}
+		if (err == nil) != op.B("ok") {
 			if err == nil {
 				cls := "listen-accepted"
 				if op.S("err") == "dup" {
@@ -811,7 +859,9 @@ func (r *vfQrRun) exec(op vfh.Op) {
 		d := r.dials[op.I("d")]
 		nBefore := len(r.led)
 		allowed := r.allowedDial(d.src, d.assoc)
-		r.tie = len(allowed) > 1
+		if r.tie = len(allowed) > 1; r.tie {
+			r.snapshot(allowed)
+		}
 		r.arm(op.S("fault"))
 		// a failing DialQUIC: the network loses every datagram, the dial is cancelled once it waits for the handshake
 		fail := d.kind == "dq" && op.S("out") == "fail" && op.S("err") != "oserr"
@@ -840,9 +890,11 @@ func (r *vfQrRun) exec(op vfh.Op) {
 		r.n.drop.Store(false)
 		synctest.Wait()
 		d.tr, d.conn = res.tr, res.conn
-		if (res.err == nil) != op.B("ok") && r.tie {
+		if r.tie && r.otherChoice(op.I("sock")) {
 			r.retry = true
-		} else if (res.err == nil) != op.B("ok") {
+			return
+		}
+		if (res.err == nil) != op.B("ok") {
 			r.v("dial-result", fmt.Sprintf("%s dial: error %v", d.kind, res.err), op.S("err"), fmt.Sprint(res.err))
 		}
 		if res.err == nil {
@@ -1013,19 +1065,10 @@ func (r *vfQrRun) compare(st *vfQrSt, opName string) (deviation string) {
 		if r.conf.Reuse {
 			tr, pool := r.find(l.s)
 			if pool != m.Pool {
-				if r.tie {
-					r.retry = true
-					return ""
-				}
 				r.d("pool-class", fmt.Sprintf("socket %d after %s", id, opName), m.Pool, pool)
 			}
 			if tr != nil && !st.CmClosed {
 				ref, unused := r.age(tr)
-				if r.tie && (ref != m.Ref || unused != m.Unused) {
-					// a failed call does not show which of several eligible transports it touched: the count does
-					r.retry = true
-					return ""
-				}
 				if ref != m.Ref {
 					r.d("refcount:"+opName, fmt.Sprintf("socket %d after %s", id, opName), m.Ref, ref)
 					deviation = opName
@@ -1108,14 +1151,18 @@ func vfQrRunWalk(t *testing.T, conf vfQrConf, cert tls.Certificate, w vfh.Walk, 
 			out.crashed = err.Error()
 			return
 		}
-		defer r.finish()
+		defer func() { vfQrGuard(r.finish) }()
 		for i := 0; i < upto; i++ {
 			step := w.Steps[i]
 			if passiveFrom >= 0 && i >= passiveFrom {
 				r.passive = true
 			}
 			nv := len(r.viol)
-			r.exec(step.Op)
+			if p := vfQrGuard(func() { r.exec(step.Op) }); p != "" {
+				r.v("panic:"+step.Op.Name(), "the call panicked: "+p, "returns", "panic")
+				out.viol, out.l2, out.step, out.executed = r.viol, r.l2, i, i+1
+				return
+			}
 			var st vfQrSt
 			if err := json.Unmarshal(step.State, &st); err != nil {
 				out.crashed = "state: " + err.Error()
@@ -1152,6 +1199,17 @@ func vfQrRunWalk(t *testing.T, conf vfQrConf, cert tls.Certificate, w vfh.Walk, 
 		out.viol, out.l2 = r.viol, r.l2
 	})
 	return out
+}
+
+// vfQrGuard runs f and returns the panic value (as text) if it panicked
+func vfQrGuard(f func()) (p string) {
+	defer func() {
+		if x := recover(); x != nil {
+			p = fmt.Sprint(x)
+		}
+	}()
+	f()
+	return ""
 }
 
 // repairable: violations after which the main run still follows the model (the harness puts the state right)
